@@ -27,6 +27,8 @@ def gen_case(r):
     n = r.between(0, 4)
     rules = [G.rule_for(r, d, mode="typed", cast_p=50, cond_depth=2, max_len=3, meaningful=True, jsonable=True, labels=True)
              for _ in range(n)]
+    # doc blocks (the JSON-like form does not carry them; they play no part in equality or in verdicts)
+    rules = [rl.replace(doc=G.doc_block(r)) if r.pct() < 35 else rl for rl in rules]
     # a condition with data-path arguments (modifiers defined on the first document)
     patharg = False
     if rules and r.pct() < 22:
